@@ -215,6 +215,44 @@ pub fn evaluate(spec: &Spec) -> (Verdict, Result<(), String>) {
     (reference, lib)
 }
 
+fn fingerprint_bit(spec: &Spec) -> bool {
+    // deterministic 1-in-32 selection
+    let mut h: u32 = 2166136261;
+    for b in format!("{:?}", spec).bytes() {
+        h = (h ^ b as u32).wrapping_mul(16777619);
+    }
+    h % 32 == 0
+}
+
+/// The same item inside a complete, otherwise valid world; None when a name is unusable.
+fn end_to_end(spec: &Spec, env: &mut Env) -> Option<Result<in_toto::models::Metablock, String>> {
+    use crate::gen::keys::KeySpec;
+    use crate::world::*;
+    let owner = KeySpec::Ed { seed: 90, pkcs8: true };
+    let mut steps = vec![];
+    let mut links = vec![];
+    let mut keys = vec![];
+    let mut all: Vec<(String, Artifacts, Artifacts, Vec<RuleSpec>, Vec<RuleSpec>)> =
+        spec.others.iter().map(|(n, m, p)| (n.clone(), m.clone(), p.clone(), vec![], vec![])).collect();
+    all.push((spec.name.clone(), spec.materials.clone(), spec.products.clone(), spec.expected_materials.clone(), spec.expected_products.clone()));
+    for (i, (name, m, p, em, ep)) in all.iter().enumerate() {
+        let k = KeySpec::Ed { seed: 91 + i as u8, pkcs8: true };
+        keys.push(k.clone());
+        steps.push(StepSpec { name: name.clone(), threshold: 1, pubkeys: vec![k.clone()], expected_command: vec![], expected_materials: em.clone(), expected_products: ep.clone() });
+        links.push(LinkFile {
+            step: name.clone(),
+            filed_under: k.clone(),
+            body: Body::Link { link: LinkSpec { name: name.clone(), materials: m.clone(), products: p.clone(), ..Default::default() }, sigs: vec![SigEntry::good(&k)], tamper: None },
+        });
+    }
+    let w = World { layout: LayoutSpec { expires: 4_000_000_000, readme: String::new(), keys, steps, inspect: vec![] }, sigs: vec![SigEntry::good(&owner)], tamper: None, links };
+    let dir = env.fresh_dir("c03e");
+    let info = write_world(&w, &dir);
+    let r = run_verify(&info, &own_ids(&[owner]), &dir, None);
+    let _ = std::fs::remove_dir_all(&dir);
+    r
+}
+
 fn small_rules() -> Vec<RuleSpec> {
     let pats = ["*", "a", "b", "a*"];
     let mut v = vec![];
@@ -248,7 +286,8 @@ impl Property for C03 {
          prefix, other digest, other side, other step, pattern mismatch, glued destination), followed by DISALLOW *. Enumerated: all rule lists of length <=2 (quick) / <=3 \
          (thorough, product side) over a 31-rule alphabet on a fixed artifact configuration (incl. a path that merely starts with a prefix string). Oracle: differential against the \
          reference rule engine transcribed from the specification (self-tested on the Python-made demo chain), both directions; via the \
-         guarded re-export of the per-item rule application. Non-trivial: at least one rule present and (the reference rejects, or a MATCH \
+         guarded re-export of the per-item rule application, and for one case in 32 additionally end to end (the item embedded in a \
+         complete signed world and run through in_toto_verify without any hook). Non-trivial: at least one rule present and (the reference rejects, or a MATCH \
          with a prefix occurs, or some rule matches while artifacts remain in the queue); distinct by the whole case."
             .into()
     }
@@ -339,6 +378,25 @@ impl Property for C03 {
             o.nontrivial(format!("{:?}", spec));
         }
         let lib_ok = lib.is_ok();
+        // tie the hook to the real call path: a share of the cases is embedded in a complete world
+        // (signed layout, one functionary and one signed link per step) and run through in_toto_verify
+        if spec.materials.len() + spec.products.len() + all.len() <= 8 && fingerprint_bit(spec) {
+            o.class("end-to-end");
+            o.evals += 1;
+            let e2e = end_to_end(spec, _env);
+            match e2e {
+                None => o.class("end-to-end:not-buildable"),
+                Some(r) => {
+                    if r.is_ok() != reference.is_accept() {
+                        o.fail(
+                            format!("{}/end-to-end", deviation_class(spec, &reference, r.is_ok())),
+                            format!("in_toto_verify: {:?}; reference: {:?}", r.map(|_| ()), reference),
+                            "same decision as the reference rule engine on a world in which nothing else can fail",
+                        );
+                    }
+                }
+            }
+        }
         if lib_ok != reference.is_accept() {
             o.fail(
                 deviation_class(spec, &reference, lib_ok),
